@@ -1,4 +1,10 @@
+def _loom(tier, seed):
+    import importlib.util, os
+    sp = importlib.util.spec_from_file_location('c04', os.path.join(os.path.dirname(__file__), 'c04.py')); m = importlib.util.module_from_spec(sp); sp.loader.exec_module(m)
+    return m.loom_suite(tier, seed, only='ceiling_', expected='at the ceiling every clone is a private copy, exclusive access is never granted, the count never wraps')
+
 SPEC = {
+    "custom": _loom,
  "id": "C09",
  "level": "proof",
  "props": [
